@@ -65,10 +65,10 @@ func NewParser(l *Lexer) Parser {
 		Minus:         {PrecAddition, unary, binary},
 		Multiply:      {PrecMultiplication, nil, binary},
 		Divide:        {PrecMultiplication, regex, binary},
-		PlusEqual:     {PrecAssign, nil, binary},
-		MinusEqual:    {PrecAssign, nil, binary},
-		MultiplyEqual: {PrecAssign, nil, binary},
-		DivideEqual:   {PrecAssign, nil, binary},
+		PlusEqual:     {PrecAssign, nil, assign},
+		MinusEqual:    {PrecAssign, nil, assign},
+		MultiplyEqual: {PrecAssign, nil, assign},
+		DivideEqual:   {PrecAssign, nil, assign},
 		AmpAmp:        {PrecLogical, nil, binary},
 		PipePipe:      {PrecLogical, nil, binary},
 		Match:         {PrecNone, match, nil},
